@@ -156,7 +156,7 @@ def run_rep(np, ode, rng, kinds, rf, order, ic, prm, frc, q0, Dm, Vm, Am, krf, f
         T[np.ix_(elpos, elpos)] = Q * np.sqrt(rng.uniform(0.5, 3.0, ne))[None, :]
         M = T.T @ M @ T; B = T.T @ B @ T; K = T.T @ K @ T; F = T.T @ F
         M = np.diag(np.diag(M))
-    if r["coupling"] == "coupled":
+    if r["coupling"] in ("coupled", "ncoupled"):
         ne = len(elpos)
         if r["mform"] == "none":
             Q, _ = np.linalg.qr(rng.standard_normal((ne, ne)))
@@ -170,6 +170,15 @@ def run_rep(np, ode, rng, kinds, rf, order, ic, prm, frc, q0, Dm, Vm, Am, krf, f
                     break
         T[np.ix_(elpos, elpos)] = Te
         M = T.T @ M @ T; B = T.T @ B @ T; K = T.T @ K @ T; F = T.T @ F
+        if r["coupling"] == "ncoupled":
+            # the equations of the elastic block combined by a conditioned L: same solution, matrices no longer symmetric
+            Lm = np.eye(ntot)
+            for _ in range(50):
+                Le = np.eye(ne) + 0.3 * rng.standard_normal((ne, ne))
+                if np.linalg.cond(Le) <= 30:
+                    break
+            Lm[np.ix_(elpos, elpos)] = Le
+            M = Lm @ M; B = Lm @ B; K = Lm @ K; F = Lm @ F
     Ti = np.linalg.inv(T)
     # expected physical histories
     Dq = np.zeros((ntot, F.shape[1])); Vq = np.zeros_like(Dq); Aq = np.zeros_like(Dq)
